@@ -35,6 +35,8 @@ def plan(tier: str, seed: int) -> t.List[dict]:
     specs = [{"name": f"sids-{i}", "kind": "sids", "n": n} for i in range(16)]
     specs.append({"name": "grid", "kind": "grid"})
     specs.append({"name": "nearmiss", "kind": "nearmiss", "n": 4000 if tier == "quick" else 100000})
+    for i in range(2 if tier == "quick" else 8):
+        specs.append({"name": f"threads-{i}", "kind": "threads", "n": 300 if tier == "quick" else 1500, "rounds": 4 if tier == "quick" else 10})
     return specs
 
 
@@ -58,6 +60,16 @@ def gen_sid(rng: random.Random, n: t.Optional[int] = None, r: t.Optional[int] = 
     a = rng.choice(AUTH_CLASSES + [rng.randrange(2**48), rng.randrange(256)])
     subs = tuple(rng.choice(SUB_CLASSES + [rng.randrange(2**32), rng.randrange(2**32), rng.randrange(100000)]) for _ in range(n))
     return rsd.Sid(r, a, subs)
+
+
+def _classify_reject(text: str) -> str:
+    try:
+        _blob().ProtectionDescriptor.parse(text).get_target_sd()
+    except ValueError:
+        return "ValueError"
+    except Exception as e:  # noqa: BLE001
+        return type(e).__name__
+    return "accepted"
 
 
 def check_sid(rec: Recorder, sid: rsd.Sid, seen: t.Dict[str, str]) -> None:
@@ -184,6 +196,26 @@ def run_shard(spec: dict, rec: Recorder) -> None:
         return
     rng = common.rng_for(ID, spec)
     seen: t.Dict[str, str] = {}
+    if spec["kind"] == "threads":
+        # the same conversions from 8 threads at once (different SIDs in flight in different threads), against the reference
+        # bytes computed beforehand: "for every SID" must not depend on what other threads of the process are converting
+        from dpapi_ng import _security_descriptor as sdm
+
+        tasks = []
+        for i in range(spec["n"]):
+            sid = gen_sid(rng)
+            text = str(sid)
+            want_sd = rsd.target_sd(sid)
+            want_sid = rsd.sid_bytes(sid) if hasattr(rsd, "sid_bytes") else None
+            tasks.append((lambda text=text: _blob().ProtectionDescriptor.parse(text).get_target_sd(), want_sd, {"sid": text, "kind": "threads"}))
+            if want_sid is not None:
+                tasks.append((lambda text=text: sdm.sid_to_bytes(text), want_sid, {"sid": text, "kind": "threads", "fn": "sid_to_bytes"}))
+            rec.case(("threads", spec["name"], text))
+        for bad in ("S-1-5-4294967296", "S-1-281474976710656-1", "S-1-5", "S-1-5-18\n"):
+            tasks.append((lambda bad=bad: _classify_reject(bad), "ValueError", {"sid": bad, "kind": "threads-nearmiss"}))
+        common.hammer(rec, tasks, "sd-bytes-mismatch-under-threads", rounds=spec["rounds"], seed=spec["seed"])
+        rec.count("sd_compared", len(tasks))
+        return
     if spec["kind"] == "sids":
         for i in range(spec["n"]):
             sid = gen_sid(rng)
